@@ -229,7 +229,7 @@ META = {
 META["C09"] = {'design_ref': 'DESIGN.md §5 C09',
  'note': 'Trusted: Lean kernel; axioms propext/Classical.choice/Quot.sound only; the theorem statements; the Go harness (generators, canonicaliser) '
          'that ties the hand-written model to /repo by differential execution on every run. Partial: clause (a) exactly-one-owner and clause (b) are '
-         'refuted at full strength and proved under explicit decidable hypotheses; the two refutations are recorded findings. Modelled not verified: '
+         'refuted at full strength for the pinned tree; (a) is proved for the current tree after fix 9ffa6d6, (b) is proved under an explicit decidable hypothesis and its refutation is a recorded finding. Modelled not verified: '
          'hashicorp/memberlist (the harness is the network; real memberlist is not started), gRPC between instances (the hand-off to the registered '
          'intra-proxy stream is the observation point), wall-clock skew between machines (single-clock assumption).',
  'technique': 'Lean 4 inductive-invariant proof over a fine-grained transition system (all schedules) + kernel-checked counterexamples + '
@@ -237,9 +237,10 @@ META["C09"] = {'design_ref': 'DESIGN.md §5 C09',
  'text': 'Theorems over a fine-grained gossip machine for ANY number of instances and shards and EVERY action list (all orders, delays, duplications '
          'of register / unregister announcements and full-state merges, leaves at any point): a holder is never older than a claim whose '
          "announcement reached it, so only a newest claimant can remain (proved, inductive invariant); 'exactly the newest claimant remains' is "
-         'FALSE of the current tree (kernel-checked witness: two claims within one broadcast latency evict each other because the announcement '
-         'carries the broadcast time, not Created - reproduced on the real code incl. through two real proxyStreamSender streams: KNOWN-FINDING), '
-         'proved under the decidable disjoint-windows hypothesis and proved outright for the repaired model; after NotifyLeave a node stays absent '
+         'PROVED for the current tree (C09_exactly_one_owner_fixed: announcements carry Created); it was FALSE of the pinned tree (kernel-checked '
+         'witness: two claims within one broadcast latency evicted each other because the announcement carried the broadcast time - reproduced on '
+         'the real code incl. through two real proxyStreamSender streams, repaired by fix commit 9ffa6d6; for that model the clause is proved under '
+         'the decidable disjoint-windows hypothesis); after NotifyLeave a node stays absent '
          "until one of its snapshots is merged (proved), 'departed own nothing' is FALSE when a snapshot is still in flight (witness, "
          'KNOWN-FINDING), proved otherwise; routing clause as decision-logic theorems over every input of DeliverMessagesToShardOwner / '
          'DeliverAckToShardOwner (true iff handed to exactly one of local stream / known remote owner, never both, false = nobody); '
